@@ -11,7 +11,19 @@ def tasks(run):
     return out
 
 
+FUNCS = ['PEPit/wrappers/cvxpy_wrapper.py::CvxpyWrapper._recover_dual_values', 'PEPit/wrapper.py::Wrapper.assign_dual_values',
+         'PEPit/wrappers/mosek_wrapper.py::MosekWrapper._get_Gram_from_mosek']
+
+
 def run(run):
+    from pyvc import components, runner
+    runner.load_contracts()
+    components.ast_functions(run, FUNCS, run.tier, rt_quick=12, rt_thorough=60)
+    run.trust('pyvc AST engine + z3 5.1 / cvc5 1.0.3')
+    run.assume('cvxpy: Problem.constraints holds the constraints it was given, in order; constraint.dual_value is the multiplier of that constraint (assumed API)',
+               'spec function pos (position of the first solver object of the k-th tracked object) and off (column offsets of a packed lower triangle) are defined '
+               'by recursion; their monotonicity, used as a lemma, follows by induction (stated, not machine-checked)',
+               'each tracked object is sent once (distinct objects in the tracked list): precondition of assign_dual_values')
     hc.solve_scenarios(run, 'C01', tasks(run), 'rt-solve-certificate',
                        'seeded DSL programs (11 templates x variants: several metrics, user / function / class LMIs written symmetrically or not, composite functions, '
                        'partitions, steps); after each finite solve the identity objective - tau = sum(lambda x constraint) - <S,G> - sum<Z,T> is recomputed by the harness '
